@@ -54,6 +54,18 @@ def gen_pair(rng):
         setattr(b, rng.choice(free), {k: ([i] if i % 2 else i) for i, k in enumerate(keys)})
       except (AttributeError, TypeError):
         pass
+  if rng.random() < 0.15:
+    # an EMPTY dict / defaultdict in old that receives its first keys in new
+    import collections
+    bs = [b for b in c02.reachable(old) if isinstance(b, config_lib.Buildable)
+          and not isinstance(b, config_lib.TaggedValueCls)]
+    b = rng.choice(bs)
+    free = [p[0] for p in l2.sig_params(b.__fn_or_cls__) if p[1] in ("PosOrKw", "KwOnly") and p[0] not in b.__arguments__]
+    if free:
+      try:
+        setattr(b, rng.choice(free), rng.choice([lambda: {}, lambda: collections.defaultdict(list), lambda: [{}]])())
+      except (AttributeError, TypeError):
+        pass
   r = rng.random()
   if r > 0.94:
     # the ROOT of one side is an object of the other side (or the two sides are one object)
@@ -75,6 +87,12 @@ def gen_pair(rng):
     return old, new, "unrelated"
   new = copy.deepcopy(old)
   kinds = []
+  for d in [x for x in c02.reachable(new) if isinstance(x, dict) and not x]:
+    if rng.random() < 0.7:
+      d["first"] = rng.choice([1, [2]])
+      if rng.random() < 0.4:
+        d["second"] = 3
+      kinds.append("empty-dict-filled")
   for _ in range(rng.randint(0, 4)):
     b, kind, _ = c06.rewrite(rng, new)
     if type(b) is type(new):
@@ -99,6 +117,10 @@ def gen_pair(rng):
     elif free:
       setattr(new, rng.choice(free), sub if rng.random() < 0.5 else {"k": sub})
       kinds.append("new-subtree-kwargs-tags")
+  if rng.random() < 0.2:
+    k = tuple_resize(rng, new)
+    if k:
+      kinds.append(k)
   if rng.random() < 0.2:
     k = subclass_rewrite(rng, new)
     if k:
@@ -155,6 +177,25 @@ def tuple_rewrite(rng, root):
   x, k = rng.choice(slots)
   try:
     c06.set_slot(x, k, t2)
+  except (AttributeError, TypeError):
+    return None
+  return kind
+
+
+def tuple_resize(rng, root):
+  """A tuple of new becomes a strict prefix / extension of the tuple at the same place of old."""
+  cands = [(x, c06.slots_holding(root, x)) for x in c02.reachable(root) if type(x) is tuple and x]
+  cands = [c for c in cands if c[1]]
+  if not cands:
+    return None
+  t, slots = rng.choice(cands)
+  if rng.random() < 0.6 or len(t) == 1:
+    t2, kind = t + (rng.choice([7, "new", [0]]),), "tuple-grown"
+  else:
+    t2, kind = t[:-1], "tuple-shrunk"
+  try:
+    for holder, k in slots:
+      c06.set_slot(holder, k, t2)
   except (AttributeError, TypeError):
     return None
   return kind
